@@ -7,11 +7,11 @@ CHECKS = {
    "HiGHS truthful about optimal/infeasible and deterministic with 1 thread; statuses other than the two genuine limit statuses are stubbed at the HighsCustom seam; Gurobi backend not run.",
    "deterministic simulation: fault enumeration over solver invocations (status/time-limit/exception/clock/alarm faults) against the fault-free reference run"),
  "C01": ("exploration", "3 C01",
-   "Every model class is solved through the simulated solver channel under seeded admissible replies (canonical / alternative optimum / float noise within tolerance), for Min* classes also with status faults on non-final invocations, plus variant plans (given weights, greedy route with padded k and decimal float weights, a second solve() on the same object); each returned route is validated against the caller's own graph by an independent reference. Sampled worlds, seeded search.",
+   "Every model class is solved through the simulated solver channel under seeded admissible replies (canonical / alternative optimum / float noise within tolerance), for Min* classes also with status faults on non-final invocations, plus variant plans (given weights, greedy route with padded k and decimal float weights, a second solve() on the same object; 6 % of the worlds carry an isolated node); each returned route is validated against the caller's own graph by an independent reference. Sampled worlds, seeded search.",
    "alternative optima come from HiGHS itself (objective row fixed at z*, seeded secondary objective); graphs <= 7 nodes / 10 edges.",
    "deterministic simulation: seeded search over solver replies (alternative optima, float noise, status faults) with route-validity oracle on the caller's graph"),
  "C02": ("exploration", "3 C02",
-   "Flow decomposition classes solved on every route (greedy incl. the abandoned greedy shortcut, MILP, given weights, guessed weights incl. the fault 'auxiliary model timed out', re-solve of the same object) under seeded admissible replies; flow conservation recomputed from the returned routes only, exactly for int and within 1e-6 relative for float; weight types checked.",
+   "Flow decomposition classes solved on every route (greedy incl. the abandoned greedy shortcut, MILP, given weights, guessed weights incl. the fault 'auxiliary model timed out', re-solve of the same object; 'lap' worlds in which every element to explain lies on a cycle taken several times and the entry / exit edges are ignored) under seeded admissible replies; flow conservation recomputed from the returned routes only, exactly for int and within 1e-6 relative for float; weight types checked.",
    "same trusted base as C01.",
    "deterministic simulation: seeded search over solver replies and auxiliary-solve faults with flow re-computation oracle"),
  "C05": ("exploration", "3 C05",
@@ -23,7 +23,7 @@ CHECKS = {
    "pre-emption at line granularity (opcode in thorough); CPython C-level operations atomic; HiGHS not involved.",
    "deterministic simulation: seeded thread-schedule search (baton-passing scheduler) against a sequential reference model"),
  "C10": ("exploration", "3 C10",
-   "Containment clause decided: in every solved model under every delivered optimum each subpath/subset constraint is covered to the requested fraction by a single returned route (recomputed from the routes). Variant plans: safety-as-constraints options switched on, a length variant (seeded lengths incl. 0, tightest length fraction the generating routes reach). Witness clause: constraints the generating routes satisfy never make a model infeasible. Ignore / scale-0-equals-ignored / additional start-end / constraints-only-restrict relations are monitored on the same runs (input-sampled, differences confirmed by the solver cross-check).",
+   "Containment clause decided: in every solved model under every delivered optimum each subpath/subset constraint is covered to the requested fraction by a single returned route (recomputed from the routes). Variant plans: safety-as-constraints options switched on, a length variant (seeded lengths incl. 0, tightest length fraction the generating routes reach; for covers a zero-length edge that only one generating route uses), a greedy-route variant (a constraint an independent max-bottleneck peeling violates, with and without a length attribute that must then play no part). Witness clause: constraints the generating routes satisfy never make a model infeasible. Ignore / scale-0-equals-ignored / additional start-end / constraints-only-restrict relations are monitored on the same runs (input-sampled, differences confirmed by the solver cross-check).",
    "same trusted base as C01; coverage comparison with 1e-9 slack.",
    "deterministic simulation: seeded search over solver replies with constraint-containment oracle"),
  "C12": ("exploration", "3 C12",
